@@ -347,6 +347,11 @@ CHECKS['C16'] = c16
 def c_dev16(run):
     from .rules import r16_tables
     r16_tables.tables_c13(run)
+    r16_tables.tables_c12(run)
+    r16_tables.check_routes(run, r16_tables.ROUTES_C12)
+    r16_tables.tables_rot(run)
+    r16_tables.rotation_words(run)
+    r16_tables.tables_frames(run)
     run.explanation = 'dev R16'
 
 
